@@ -332,14 +332,37 @@ func (s *lockingStream) genBegin(r *tr.Rng) *tr.Op {
 		cls = "begin/no-votes"
 	}
 	var evs []string
+	nev := 0
 	if r.Chance(7) && len(s.vals) > 1 {
+		nev = 1
+		if r.Chance(40) {
+			nev = 2 + r.Intn(2) // several pieces of evidence in one block (expired ones before fresh ones, same or other validators)
+			cls += fmt.Sprintf("/evidence-x%d", nev)
+		}
+	}
+	staleFirst := nev >= 2 && r.Chance(60)
+	for k := 0; nev > 0; nev, k = nev-1, k+1 {
 		v := &lval{addr: s.pickTarget(r)}
+		if r.Chance(40) {
+			// evidence against a ranked candidate that is not (or no longer) a member of the set
+			for _, c := range s.vals[1:] {
+				if cv, err := s.w.Lock.Validators.Get(s.w.Ctx, c.addr); err == nil && cv.Status == lockingtypes.Pending && cv.Power > 0 {
+					v = &lval{addr: c.addr}
+					cls += "/evidence-against-pending"
+					break
+				}
+			}
+		}
 		if ok, _ := s.w.Lock.Validators.Has(s.w.Ctx, v.addr); !ok {
 			v = s.vals[0] // evidence always names a validator the module reported (environment assumption)
 		}
 		kind := tr.Pick(r, 1, 1, 2, 0, 3)
 		var eh, et int64
-		switch r.Intn(6) {
+		ageSel := r.Intn(6)
+		if staleFirst {
+			ageSel = map[bool]int{true: 0, false: 5}[k == 0] // an expired piece first, fresh ones after it
+		}
+		switch ageSel {
 		case 0: // both ages exceeded
 			eh, et = s.height-s.maxAgeB-1, s.now-s.maxAgeD-1
 			cls += "/evidence-stale"
